@@ -267,9 +267,6 @@ type Outcome struct {
 func varsSnapshot(vm jet.VarMap) map[string]string {
 	m := map[string]string{}
 	for k, v := range vm {
-		if strings.HasPrefix(k, "zq") {
-			continue // declared by the templates themselves through LetGlobal
-		}
 		d := v.Kind().String()
 		switch v.Kind() {
 		case reflect.Ptr, reflect.Func, reflect.Map, reflect.Slice, reflect.Chan:
